@@ -37,7 +37,7 @@ const token = "c19-token"
 // wrapper timings for the whole process (set once, before any client starts)
 const (
 	tCheck    = 100 * time.Millisecond
-	tWaitResp = 1500 * time.Millisecond
+	tWaitResp = 3000 * time.Millisecond
 	tStartErr = 2500 * time.Millisecond
 )
 
@@ -59,7 +59,7 @@ func main() {
 		"http probes are observed at a recording RoundTripper wrapped around http.DefaultTransport; it delegates to the real transport and only opens/closes the harness's own backend listener between two probes",
 		"a refused tcp probe is invisible to the backend: tcp health scripts are judged with lower bounds on elapsed time (at most floor(W/interval)+1 probes fit into a closed window of measured length W)",
 		"'eventually' clauses (converged, withdrawn, retried) are bounded-progress watchdogs of at least 3x the configured timer + 10 s",
-		"wrapper timers are shortened with clientproxy.VerifSetTimings(100ms, 1.5s, 2.5s); health intervals and timeouts are whole seconds as in the configuration schema",
+		"wrapper timers are shortened with clientproxy.VerifSetTimings(100ms, 3s, 2.5s); health intervals and timeouts are whole seconds as in the configuration schema",
 		"the stub server plugin sees every NewProxy message frps receives and every CloseProxy that closed an existing proxy (frps notifies closes asynchronously, so only counts and lower time bounds are used)",
 	}
 	ports = h.Ports(prop)
@@ -72,10 +72,10 @@ func main() {
 		os.Exit(h.ExitHarnessError)
 	}
 
-	nHealth := run.N(300, 3000)
-	nReload := run.N(120, 1500)
-	nGating := run.N(20, 200)
-	nScripted := run.N(64, 640)
+	nHealth := run.N(300, 4000)
+	nReload := run.N(120, 2400)
+	nGating := run.N(20, 300)
+	nScripted := run.N(64, 960)
 
 	var wg sync.WaitGroup
 	var wallMu sync.Mutex
